@@ -149,7 +149,7 @@ def op_misc(p):
     opts.append((1, st.tuples(st.just("feed"), st.sampled_from([600, 1200, 2400]))))
     if p.get("posupd", True):
         # OctoPrint publishes the printer's M114 answer (on a pause, on request) - the plugin has no business with it
-        opts.append((1, st.just(("posupd",))))
+        opts.append((1, st.tuples(st.just("posupd"), st.booleans())))
     return weighted(opts)
 
 
@@ -467,8 +467,14 @@ class Renderer(object):  # pylint: disable=too-many-instance-attributes
             self.op(("mv", "grid", 0, i, i, mask, None, 0, None, "G1"))
         elif k == "posupd":
             if pr.x is not None:
+                rel_now = o[1] and pr.abs and self.p["rel"] and not self.exact      # (the answer may arrive while the file is in G91)
+                if rel_now:
+                    self.g("G91")
                 self.prog.append(["event", "POSITION_UPDATE", {"x": round(pr.logical("x"), 4), "y": round(pr.logical("y"), 4), "z": round(pr.logical("z"), 4),
                                                               "e": round(pr.e / pr.u, 4), "t": 0, "f": 1500.0}])
+                if rel_now:
+                    self.g("G1 X%s" % fmt(0.5 / pr.u, 5), precheck=True)
+                    self.g("G90")
         elif k == "again":
             last = self.prog[-1] if self.prog else None
             if last is not None and last[0] == "g" and last[1].startswith(("G0 ", "G1 ")) and any(w in last[1] for w in (" X", " Y", " Z")):
